@@ -22,7 +22,8 @@ import (
 
 func allKindsFields() defMap {
 	f := defMap{"o": {Kind: "rel", To1: true, TT: "ak2"}, "m": {Kind: "rel", To1: false, TT: "ak2"},
-		"o2": {Kind: "rel", To1: true, TT: "ak2"}, "m2": {Kind: "rel", To1: false, TT: "ak2"}}
+		// (o2 is one side of a two-way relationship: ak2.back is its inverse)
+		"o2": {Kind: "rel", To1: true, TT: "ak2", TN: "back"}, "m2": {Kind: "rel", To1: false, TT: "ak2"}}
 	for _, k := range baseKinds {
 		n := kindName(k)
 		f["k"+n] = jDef{Kind: "attr", K: n}
@@ -49,7 +50,7 @@ func akFields(impl string) defMap {
 }
 
 // ak2 also has a two-way relationship with itself (up <-> down)
-var ak2Fields = defMap{"s": {Kind: "attr", K: "string"}, "back": {Kind: "rel", To1: true, TT: "ak"},
+var ak2Fields = defMap{"s": {Kind: "attr", K: "string"}, "back": {Kind: "rel", To1: true, TT: "ak", TN: "o2"},
 	"up": {Kind: "rel", To1: true, TT: "ak2", TN: "down"}, "down": {Kind: "rel", To1: false, TT: "ak2", TN: "up"}}
 
 // ak3 has attributes only (no relationship at all)
@@ -1638,6 +1639,11 @@ func runSelfPair(c pairCase) pairEvent {
 		ev.Part = "accept"
 		ev.PRels = sortedKeys(part.Rels())
 		ev.ValsOK = part.Get("s") == "v"
+		for k, r := range part.Rels() { // each with the schema's definition, inverse side included
+			if schema.GetType("ak2").Rels[k] != r {
+				ev.ValsOK = false
+			}
+		}
 		if c.Up {
 			ev.ValsOK = ev.ValsOK && part.Get("up") == "p" && (ev.Out != "accept" || full.Get("up") == "p")
 		}
